@@ -178,6 +178,16 @@ def run(tier='quick'):
                         'inserts the new position into, on every path (also when the crate becomes a root)',
                   floor=1)
     old_position_removed(prog, cg, eff, chk, T7)
+    T11 = chk.rule('T11', '2.x children() / root_crates() list the siblings by walking the successor chain: the triggers that '
+                          'splice it on insert and delete exist in every supported 2.x DDL and equal their sibling copies '
+                          '/ the reference dump; a multi-statement move runs under a transaction guard that begins, commits '
+                          'and rolls back (a failed move must not leave the forest half changed, nor the connection inside '
+                          'an open transaction)', floor=30)
+    from . import c09 as _c09, c14 as _c14
+    from . import c08 as _c08b
+    _c09.splice_triggers_present(prog, chk, T11)
+    _c08b.chain_trigger_siblings(prog, chk, T11, tables=('playlist',))
+    _c14._guard_shape(prog, eff, chk, T11)
     T10 = chk.rule('T10', 'remove_crate removes the whole subtree of the crate, so that no live crate keeps a removed '
                           'parent', floor=2)
     subtree_removed(prog, cg, eff, chk, T10)
